@@ -133,7 +133,11 @@ func compositeTp(lhs FType, rhs FType) frt.Tuple2[FType, []UniRel] {
 				rt1 := _v7.Value
 				return frt.IfElse((frt.OpEqual(rt1.Name, rt2.Name) && frt.OpEqual(slice.Len(rt1.Targs), slice.Len(rt2.Targs))), (func() frt.Tuple2[FType, []UniRel] {
 					tps, rels := frt.Destr2(compositeTpList(compositeTp, rt1.Targs, rt2.Targs))
-					return frt.Pipe(frt.Pipe(RecordType{Name: rt1.Name, Targs: tps}, New_FType_FRecord), (func(_r0 FType) frt.Tuple2[FType, []UniRel] { return withRels(rels, _r0) }))
+					nrt := RecordType{Name: rt1.Name, Targs: tps}
+					frt.IfOnly(frt.OpNot(hasRecInfo(nrt)), (func() {
+						updateRecInfo(nrt, lookupRecInfo(rt1))
+					}))
+					return frt.Pipe(New_FType_FRecord(nrt), (func(_r0 FType) frt.Tuple2[FType, []UniRel] { return withRels(rels, _r0) }))
 				}), (func() frt.Tuple2[FType, []UniRel] {
 					return frt.Pipe(emptyRels(), (func(_r0 []UniRel) frt.Tuple2[FType, []UniRel] { return withTp(lhs, _r0) }))
 				}))
